@@ -637,6 +637,18 @@ func runDurPublish(c *Ctx, r *RuleRun) {
 						writes = append(writes, e2.Ins)
 					}
 				}
+				// writes made by helpers called from here
+				isTmpWrite := func(i ssa.Instruction) bool {
+					e2 := d.effects[i]
+					return e2 != nil && e2.Kind == "write" && e2.Class == "table-tmp"
+				}
+				for _, b2 := range f.Blocks {
+					for _, i2 := range b2.Instrs {
+						if call, ok := i2.(*ssa.Call); ok && p.SiteMayReach(call, isTmpWrite) {
+							writes = append(writes, call)
+						}
+					}
+				}
 				if len(writes) == 0 {
 					r.Viol(fn, "rename(→table)", pos, "nothing is written to the temporary file in this function before it is renamed")
 					continue
